@@ -93,19 +93,27 @@ where anyL : List Ann → Bool
   | [] => false
   | a :: as => a.hasEmptyTuple || anyL as
 
-def Ann.hasTypeOfUnion : Ann → Bool
-  | .typeOf _ (.union _ _) => true
-  | .typeOf _ a => a.hasTypeOfUnion
+/-- what may stand inside `Type[..]` on the guarded vocabulary: a class, Any, or a Union of those -/
+def classLike : Ann → Bool
+  | .any | .cls _ | .clsF _ _ _ => true
+  | _ => false
+def typeArgOk : Ann → Bool
+  | .union _ ms => ms.all classLike
+  | a => classLike a
+
+/-- `Type[..]` over something else than a class, Any or a Union of those (outside the vocabulary "Type[C]") -/
+def Ann.hasTypeOfNonClass : Ann → Bool
+  | .typeOf _ a => !typeArgOk a
   | .tuple _ items => anyL items
   | .clsF _ _ anns => anyL anns
   | .union _ ms => anyL ms
-  | .seq _ _ a => a.hasTypeOfUnion
-  | .map _ _ k v => k.hasTypeOfUnion || v.hasTypeOfUnion
-  | .tupleVar _ a => a.hasTypeOfUnion
+  | .seq _ _ a => a.hasTypeOfNonClass
+  | .map _ _ k v => k.hasTypeOfNonClass || v.hasTypeOfNonClass
+  | .tupleVar _ a => a.hasTypeOfNonClass
   | _ => false
 where anyL : List Ann → Bool
   | [] => false
-  | a :: as => a.hasTypeOfUnion || anyL as
+  | a :: as => a.hasTypeOfNonClass || anyL as
 
 /-- the annotation contains a forward reference that does not name a class of the context (outside the vocabulary of
     C01/C02: "forward references naming a class") -/
